@@ -123,3 +123,28 @@ def run(ctx, rep):
             rep.finding(R4, f.key.replace('C06.', 'C10.R4/C06.', 1), f.where, f.construct, f.msg)
     RL = rep.rule('C10.R5', 'a rule stops offering targets because of a world / constant limit only in states where a quit flag is put on the branch (limit predicates and guarded target producers folded below / at / above the limit): an open branch cut short by a limit is never limit-free')
     common.limit_guards(ctx, rep, RL, 'C10.R5')
+    r6(ctx, rep)
+
+
+def r6(ctx, rep):
+    """Monotonicity / cut-freeness at the level of one rule: what a rule adds for a node may depend on the branch only through
+    redundancy (the node it would add is already there), fairness (decided not to starve, C02.R8) and limits (C10.R5).  A skip
+    conditioned on any *other* node lets an added premise switch an expansion off: valid |- becomes refuted with one more premise."""
+    m = ctx.m
+    R6 = rep.rule('C10.R6', 'an added premise cannot switch an expansion off: every branch-dependent skip in a rule\'s target producer is a validated redundancy guard '
+                            '(`branch.has(x)` with x a node the rule goes on to add), the fairness gate, or a limit guard -- for every rule slot of every logic')
+    n = 0
+    seen = set()
+    for s in common.slots(ctx):
+        if s.sch is None:
+            continue
+        n += 1
+        rep.instance(R6, ok=not s.sch.problems, nontrivial=(s.lg.name, s.rc.name))
+        for p_ in s.sch.problems:
+            key, msg = p_.split('|', 1)
+            k = (s.rc.short, key)
+            if k in seen:
+                continue
+            seen.add(k)
+            rep.finding(R6, f'C10.R6/{s.rc.short}/{key}', m.floc(s.sch.fn), s.rc.short, f'rule {s.rc.name} (first seen in {s.lg.name}): {msg}')
+    rep.floor('C10.R6', 'rule slots', n, 1500)
